@@ -126,6 +126,39 @@ func runC15(c *Ctx) {
 		})
 	}
 
+	// O10: the order never asks the pattern matcher. `==` on strings is a glob match (`"abc" == "a*"`),
+	// which is not an equivalence; an ordering operator that consults it stops being antisymmetric.
+	r.Rule("O10", "no comparator reaches the glob matcher that `==` uses on strings", 1)
+	{
+		// from the functions that decide the order of two given nodes (not from the handlers, which
+		// also splat and traverse their operand): Less methods, the closure built by compare, compareScalars
+		var pairRoots []*ssa.Function
+		for _, fn := range c.moduleFuncs() {
+			switch {
+			case fn.Name() == "Less" && fn.Signature.Recv() != nil,
+				fn.Name() == "compareScalars",
+				fn.Name() == "compare" && fn.Parent() == nil, // the factory: what it captures for its closure is called from the closure
+				fn.Parent() != nil && fn.Parent().Name() == "compare":
+				pairRoots = append(pairRoots, fn)
+			}
+		}
+		if len(pairRoots) < 2 {
+			r.Fatal("anchor missing: expected Less, compareScalars and the closure of compare as pairwise comparators, found %d", len(pairRoots))
+		}
+		pairReach := staticReach(c, pairRoots, func(f *ssa.Function) bool { return f.Name() == "GetMatchingNodes" })
+		var glob *ssa.Function
+		for fn := range pairReach {
+			if fn.Name() == "matchKey" || fn.Name() == "deepMatch" {
+				glob = fn
+			}
+		}
+		reach := pairReach
+		if glob == nil {
+			r.Discharge("O10", "comparators/no-glob-match", "-", fmt.Sprintf("matchKey / deepMatch are not among the %d functions reachable from the %d pairwise comparators", len(pairReach), len(pairRoots)))
+		} else {
+			r.FindingPath("O10", "comparators/no-glob-match", c.P.pos(glob.Pos()), "an ordering operator reaches the glob matcher "+glob.Name()+": `a <= b` then holds for a pattern b that matches a, whatever their order — the order is no longer antisymmetric and disagrees with sort", pathTo(reach, glob))
+		}
+	}
 	// O2
 	for fn := range reach {
 		eachInstr(fn, func(ins ssa.Instruction) {
